@@ -15,7 +15,7 @@ func init() {
 	register(&Property{
 		ID:          "C20",
 		NeedSSA:     true,
-		Decided:     "Structural necessary conditions for history independence of the codecs: (dst) in every Encode/Decode method under compress/ the reusable output buffer is only truncated (dst[:0]), measured with cap(), passed to a helper obeying the same rule or to a listed library routine that treats it as scratch, or returned — its previous length and content are never observed and it is never re-sliced up to its old capacity; (pool) an object taken from a pool is not used after it was put back, an object that received Close is put back only after a Reset, the reset closure given to Pool.Get re-targets the stream, and a reader whose Reset failed is dropped instead of pooled; (stateless) Encode/Decode of every compress.Codec implementation write no field of the codec value (shared by all writers and readers) other than its pools; (tables) each entry of the codec table is the implementation whose CompressionCodec() returns its key. (result) every caller of Codec.Encode/Decode (and of the pooled Compressor/Decompressor) that passes a destination buffer takes the returned slice on every non-failing path (returns, stores, passes it on, or compares it by identity with the buffer); (pool, cont.) a function that returns memory held in a field of a pooled object replaces that field before the object is put back. (retry) from the failure edge of a fallible call in a loop some path leaves the loop without passing the call again; (pool, cont.) the decompressor pools a reader only on the nil edges of both its Reset error and the function's own error, and panics of the functions handed to Pool.Get are recovered by a deferred function.",
+		Decided:     "Structural necessary conditions for history independence of the codecs: (dst) in every Encode/Decode method under compress/ the reusable output buffer is only truncated (dst[:0]), measured with cap(), passed to a helper obeying the same rule or to a listed library routine that treats it as scratch, or returned — its previous length and content are never observed and it is never re-sliced up to its old capacity; (pool) an object taken from a pool is not used after it was put back, an object that received Close is put back only after a Reset, the reset closure given to Pool.Get re-targets the stream, and a reader whose Reset failed is dropped instead of pooled; (stateless) Encode/Decode of every compress.Codec implementation write no field of the codec value (shared by all writers and readers) other than its pools; (tables) each entry of the codec table is the implementation whose CompressionCodec() returns its key. (result) every caller of Codec.Encode/Decode (and of the pooled Compressor/Decompressor) that passes a destination buffer takes the returned slice on every non-failing path (returns, stores, passes it on, or compares it by identity with the buffer); (pool, cont.) a function that returns memory held in a field of a pooled object replaces that field before the object is put back. (retry) from the failure edge of a fallible call in a loop some path leaves the loop without passing the call again; (pool, cont.) the decompressor pools a reader only on the nil edges of both its Reset error and the function's own error, and panics of the functions handed to Pool.Get are recovered by a deferred function. (bound) every buffer that reaches the destination argument of a block compressor (CompressBlock) is sized by the library's bound: made with a length computed from CompressBlockBound, returned by a module helper that was given that bound, or the caller's buffer re-sliced on the false edge of `cap(buf) < n` with n computed from the bound.",
 		NotDecided:  "losslessness; the behaviour of the third-party compressors; sizing arithmetic of output buffers (for instance the worst-case bound an LZ4 block needs).",
 		Assumptions: []string{"the listed library routines (snappy, lz4, zstd EncodeAll/DecodeAll) treat dst as scratch per their documentation"},
 		Run:         runC20,
@@ -29,6 +29,7 @@ func runC20(c *Ctx) {
 	runCodecResultRule(c, "C20.result", 4)
 	runRetryRule(c, "C20.retry", func(fn *ssa.Function) bool { return inModule(fn) }, 60)
 	c20Stateless(c)
+	c20Bound(c)
 	runTableRule(c, "C20.tables", "compressionCodecs", "CompressionCodec", 6)
 }
 
@@ -585,4 +586,136 @@ func allMakeClosures(fn *ssa.Function) []*ssa.MakeClosure {
 		}
 	})
 	return out
+}
+
+// c20Bound — a block compressor writes into the buffer it is given and fails
+// (or, for some inputs, silently stops) when it is too small; the library
+// publishes the size that is always enough (CompressBlockBound). Every buffer
+// that reaches the dst argument of CompressBlock is sized by that bound: it is
+// made with a length computed from it, returned by a module helper that was
+// given it, or it is the caller's buffer re-sliced on the false edge of
+// `cap(buf) < n` with n computed from the bound.
+func c20Bound(c *Ctx) {
+	rule := "C20.bound"
+	p := c.P
+	fromBound := func(v ssa.Value) bool {
+		seen := map[ssa.Value]bool{}
+		var walk func(v ssa.Value) bool
+		walk = func(v ssa.Value) bool {
+			if v == nil || seen[v] {
+				return false
+			}
+			seen[v] = true
+			switch x := v.(type) {
+			case *ssa.Call:
+				if f := x.Call.StaticCallee(); f != nil && f.Name() == "CompressBlockBound" {
+					return true
+				}
+			case *ssa.BinOp:
+				return walk(x.X) || walk(x.Y)
+			case *ssa.Convert:
+				return walk(x.X)
+			case *ssa.ChangeType:
+				return walk(x.X)
+			case *ssa.Phi:
+				for _, e := range x.Edges {
+					if !walk(e) {
+						return false
+					}
+				}
+				return len(x.Edges) > 0
+			}
+			return false
+		}
+		return walk(v)
+	}
+	n := 0
+	for _, fn := range p.ModuleSSAFuncs() {
+		if fn.Origin() != nil || fn.Blocks == nil || !strings.Contains(fnPkgPath(fn), "/compress") {
+			continue
+		}
+		k := 0
+		allCalls(fn, false, func(_ *ssa.Function, call ssa.CallInstruction) {
+			callee := call.Common().StaticCallee()
+			if callee == nil || callee.Name() != "CompressBlock" || inModule(callee) {
+				return
+			}
+			args := call.Common().Args
+			dst := args[len(args)-1]
+			if callee.Signature.Params().Len() >= 2 {
+				// (src, dst []byte, ...) — dst is the second parameter
+				off := 0
+				if callee.Signature.Recv() != nil {
+					off = 1
+				}
+				dst = args[off+1]
+			}
+			var bad []string
+			seen := map[ssa.Value]bool{}
+			var walk func(v ssa.Value)
+			walk = func(v ssa.Value) {
+				if v == nil || seen[v] {
+					return
+				}
+				seen[v] = true
+				switch x := v.(type) {
+				case *ssa.Phi:
+					for _, e := range x.Edges {
+						walk(e)
+					}
+				case *ssa.MakeSlice:
+					if !fromBound(x.Len) {
+						bad = append(bad, "make at "+p.Pos(x.Pos())+" with a length not computed from CompressBlockBound")
+					}
+				case *ssa.Call:
+					g := x.Call.StaticCallee()
+					ok := false
+					if g != nil && inModule(g) {
+						for _, a := range x.Call.Args {
+							if fromBound(a) {
+								ok = true
+							}
+						}
+					}
+					if !ok {
+						bad = append(bad, "result of "+calleeName(x)+" at "+p.Pos(x.Pos())+", which is not given the bound")
+					}
+				case *ssa.Slice:
+					// the caller's buffer, kept because it is large enough
+					guarded := false
+					for _, d := range fn.Blocks {
+						ifi, isIf := d.Instrs[len(d.Instrs)-1].(*ssa.If)
+						if !isIf {
+							continue
+						}
+						bo, isBo := ifi.Cond.(*ssa.BinOp)
+						if !isBo || bo.Op != token.LSS || !fromBound(bo.Y) {
+							continue
+						}
+						cp, isCall := bo.X.(*ssa.Call)
+						if !isCall {
+							continue
+						}
+						if bi, isB := cp.Call.Value.(*ssa.Builtin); !isB || bi.Name() != "cap" || cp.Call.Args[0] != x.X {
+							continue
+						}
+						if f := d.Succs[1]; len(f.Preds) == 1 && f.Dominates(x.Block()) {
+							guarded = true
+						}
+					}
+					if !guarded {
+						walk(x.X)
+					}
+				default:
+					bad = append(bad, describeValue(p, v)+", whose size the bound did not decide")
+				}
+			}
+			walk(dst)
+			n++
+			k++
+			sort.Strings(bad)
+			c.Check(rule, FuncKey(fn)+" gives CompressBlock a buffer sized by the bound#"+itoa(k), call.Pos(), len(bad) == 0, FuncKey(fn)+" hands CompressBlock a destination that can be "+strings.Join(bad, "; ")+": inputs that do not compress overflow it and Encode fails or returns a block that does not decode to the input")
+		})
+	}
+	c.Min(rule, 2)
 }
